@@ -139,6 +139,60 @@ func vfCheckQueue(q *ProvideQueue, m *vfQueueModel, mhs []mh.Multihash, when str
 	}
 }
 
+// VfDequeueMatchingDrain (C19): regions are drained piecewise with
+// DequeueMatching on prefixes LONGER than the queued ones (as the provider
+// does when a region turns out to be split), then the rest is dequeued. M keys
+// with W-bit identifiers are queued under their own prefixes of length < L.
+func VfDequeueMatchingDrain() {
+	M, L, D := vfParam("M"), vfParam("L"), vfParam("D")
+	vfHashBits(vfParam("W"))
+	mhs := make([]mh.Multihash, M)
+	for i := range mhs {
+		mhs[i] = vfMh(i)
+	}
+	q := NewProvideQueue()
+	m := &vfQueueModel{in: make([]bool, M)}
+	for i := range mhs {
+		p := vfKadPrefix(mhs[i], vfChoose("enq.len", L))
+		q.Enqueue(p, mhs[i])
+		m.order = vfPushModel(m.order, p)
+		m.in[i] = true
+	}
+	vfAssert(vfSameList(vfQueuePrefixes(&q.queue), m.order), "queue/enqueue-keeps-first-enqueue-order-with-absorption")
+	for d := 0; d < D; d++ {
+		l := vfChoose("dm.len", L+1)
+		b := make([]byte, l)
+		for x := range b {
+			b[x] = vfIte(vfBool("dm.bit"), byte('1'), byte('0'))
+		}
+		p := bitstr.Key(string(b))
+		before := m.order
+		keys := q.DequeueMatching(p)
+		vfDequeuedExactly(keys, p, m, mhs, "queue/dequeue-matching-returns-all-and-only-keys-under-prefix")
+		after := vfQueuePrefixes(&q.queue)
+		vfAssert(vfIsSubsequence(after, before), "queue/dequeue-matching-never-reorders-or-adds")
+		m.order = after
+		vfCheckQueue(q, m, mhs, "after-dequeue-matching")
+	}
+	for len(m.order) > 0 {
+		p, keys, ok := q.Dequeue()
+		vfAssert(ok, "queue/dequeue-nonempty-succeeds")
+		vfAssert(p == m.order[0], "queue/dequeue-returns-oldest-prefix")
+		m.order = m.order[1:]
+		vfAssert(len(keys) > 0, "queue/a-dequeued-prefix-comes-with-its-keys")
+		vfDequeuedExactly(keys, p, m, mhs, "queue/dequeue-returns-all-and-only-keys-under-prefix")
+		vfCheckQueue(q, m, mhs, "after-dequeue")
+	}
+	_, _, ok := q.Dequeue()
+	vfAssert(!ok, "queue/dequeue-empty-reports-empty")
+	for i := range m.in {
+		vfAssert(!m.in[i], "queue/every-key-was-handed-out")
+	}
+	vfReach("drain/end")
+}
+
+var _ = vfRegister("VfDequeueMatchingDrain", VfDequeueMatchingDrain)
+
 func trieFind(q *ProvideQueue, p bitstr.Key) (bool, struct{}) {
 	k, ok := keyspace.FindPrefixOfKey(q.queue.prefixes, p)
 	return ok && k == p, struct{}{}
@@ -395,14 +449,20 @@ func VfReprovideQueue() {
 	for step := 0; step < K; step++ {
 		switch vfChoose("op", 4) {
 		case 0:
-			l := vfChoose("len", L+1)
-			b := make([]byte, l)
-			for x := range b {
-				b[x] = vfIte(vfBool("bit"), byte('1'), byte('0'))
+			// one call may name several prefixes, overlapping or not
+			var ps []bitstr.Key
+			for n := 1 + vfChoose("nPrefixes", vfParam("BATCH")); n > 0; n-- {
+				l := vfChoose("len", L+1)
+				b := make([]byte, l)
+				for x := range b {
+					b[x] = vfIte(vfBool("bit"), byte('1'), byte('0'))
+				}
+				ps = append(ps, bitstr.Key(string(b)))
 			}
-			p := bitstr.Key(string(b))
-			q.Enqueue(p)
-			model = vfPushModel(model, p)
+			q.Enqueue(ps...)
+			for _, p := range ps {
+				model = vfPushModel(model, p)
+			}
 		case 1:
 			p, ok := q.Dequeue()
 			if len(model) == 0 {
